@@ -1,9 +1,9 @@
 //! Kani harnesses (external crate, path dependency on /repo).
 #![feature(allocator_api)]
 #![allow(unused, static_mut_refs)]
-#[path = "../../common/stubs.rs"]
+#[path = "/verif/harness/common/stubs.rs"]
 pub mod stubs;
-#[path = "../../common/util.rs"]
+#[path = "/verif/harness/common/util.rs"]
 #[macro_use]
 pub mod util;
 pub mod common;
